@@ -158,6 +158,7 @@ def run(seed, tier):
             cfg['birth'], cfg['birth_bounds'] = 'uniform', rng.choice([(1., 3.), (0.5, 2.0)])
         cfg['nchains'] = 1
         cfg['blobs'] = False
+        cfg['k_bounds_frac'] = i % 2 == 1          # index bounds given as (0.5, N - 0.5): documented to mean 0..N
         kstd = rng.choice([0.7, 1.0, 2.0, 3.0])
         N = cfg['td_n']
         with Tap() as tap:
